@@ -126,3 +126,41 @@ Theorem C09_kind_value_from_text : forall s1 s2, map (tok_text s1) (scan s1) = m
   Forall2 (fun t t' => tkind t = tkind t' /\ tvalue t = tvalue t') (scan s1) (scan s2).
 Proof. exact same_texts_same_kv. Qed.
 Print Assumptions C09_kind_value_from_text.
+
+(** ** string literals (Proofs/LexValues.v) *)
+From PQL Require Import Proofs.LexValues Spec.NumValue.
+(** round trip: any byte string, written between single or double quotes with the quote and the
+    backslash escaped by a backslash and a newline written \n, lexes to exactly one string token
+    whose value is that byte string (bytes >= 0x80, valid UTF-8 or not, are kept as they are) *)
+Theorem C09_string_roundtrip : forall q s rest, (q = 34 \/ q = 39)%N ->
+  lex1 (str_quote q s ++ rest) = Tok KString s (List.length (str_quote q s)).
+Proof. exact string_roundtrip. Qed.
+Print Assumptions C09_string_roundtrip.
+
+(** the escapes decode as documented: \n newline, \t tab, a backslash before any other ASCII
+    character stands for that character *)
+Theorem C09_string_escapes : forall q c rest, (q = 34 \/ q = 39)%N -> (c < 128)%N -> c <> 10%N ->
+  lex1 (q :: 92%N :: c :: q :: rest) =
+  Tok KString [if (c =? 110)%N then 10%N else if (c =? 116)%N then 9%N else c] 4.
+Proof. exact string_escape_table. Qed.
+Print Assumptions C09_string_escapes.
+
+(** strings are one-line: end of text or a newline before the closing quote gives one error token *)
+Theorem C09_string_unterminated : forall q s, (q = 34 \/ q = 39)%N ->
+  forallb (fun c => (c <? 128)%N && negb (c =? q)%N && negb (c =? 92)%N && negb (c =? 10)%N) s = true ->
+  (exists n, lex1 (q :: s) = Tok KError [] n) /\ (forall rest, exists n, lex1 (q :: s ++ 10%N :: rest) = Tok KError [] n).
+Proof. exact string_unterminated. Qed.
+Print Assumptions C09_string_unterminated.
+
+(** ** number literals denote the number their source text denotes (Spec/NumValue.v): mantissa,
+    number of fraction digits and exponent of the normalised spelling are those of the source
+    text (decimal, leading zeros, leading point, fraction, exponent), and a hexadecimal literal's
+    value is the decimal spelling of the number its digits denote *)
+Theorem C09_number_value : forall s t, In t (scan s) -> tkind t = KNumber ->
+  num_parts (tvalue t) = src_num_parts (slice s (tstart t) (tend t)).
+Proof. exact scanned_number_value. Qed.
+Print Assumptions C09_number_value.
+
+Theorem C09_normalisation_keeps_value : forall s, num_parts (normalize_number s) = num_parts s.
+Proof. exact normalize_parts. Qed.
+Print Assumptions C09_normalisation_keeps_value.
